@@ -107,6 +107,8 @@ func runC18(c *Ctx) {
 	checkRWReadDir(c)
 	checkCrashInventory(c)
 	checkCommitWalk(c)
+	checkBackingFileTruncated(c, "namespace.create.backing-file-empty")
+	checkCommitWalkerReleasesBeforeWaiting(c, "commit.walk.release-before-wait")
 }
 
 // fieldWrites lists writes (assign, op-assign, inc/dec) to the struct field with the given ID in a package.
